@@ -701,6 +701,33 @@ func boundaryMessages() []*RMsg {
 	host := Name{[]byte("host"), []byte("local")}
 	www := Name{[]byte("www"), []byte("host"), []byte("local")}
 	rr := func(n Name, rd []byte) RRR { return RRR{n, 1, 1, 30, rd} }
+	// the order of records inside a section is content: every permutation of records of special
+	// types (OPT 41, TSIG 250, SIG 24, NSEC 47, SOA 6) with ordinary ones, in each section; and
+	// the same record twice, records differing only in TTL, and in RDATA only
+	special := []uint16{41, 250, 24, 47, 6, 1, 28, 16}
+	for si := 0; si < 3; si++ {
+		for a := 0; a < len(special); a++ {
+			for b := 0; b < len(special); b++ {
+				if (a+b+si)%3 != 0 && a != 0 && b != 0 {
+					continue
+				}
+				m := &RMsg{ID: uint16(0x4000 + len(out)), Flags: 0x8000, Q: []RQ{{host, 255, 1}}}
+				recs := []RRR{{Name{}, special[a], 1, 0, []byte{1, 2, 3}}, {host, special[b], 1, 30, []byte{10, 0, 0, 1}}, {www, special[(a+b)%len(special)], 1, 60, nil}}
+				if a == b {
+					recs = append(recs, recs[1], RRR{host, special[b], 1, 31, []byte{10, 0, 0, 1}}, RRR{host, special[b], 1, 30, []byte{10, 0, 0, 2}})
+				}
+				switch si {
+				case 0:
+					m.An = recs
+				case 1:
+					m.Ns = recs
+				default:
+					m.Ar = recs
+				}
+				out = append(out, m)
+			}
+		}
+	}
 	// every combination of empty / single / full sections
 	for _, nq := range []int{0, 1, 8} {
 		for _, na := range []int{0, 1, 6} {
